@@ -8,6 +8,11 @@
    | (0 (size probes row_major_iter write-outcomes root-data)), probe = () absent / (x) / (0 0) panic.
    (12 2 rows cols data rp cp) partition, (12 3 rows cols data r c) partition_quadrants: (2) or
    (0 (parts root-data-after-filling-part-k-with-1000+k)), part = (size cells).
+   (12 5 start ops rp cp): the matrix a C11 history (tools/props/c11.py) ends with is partitioned:
+   (3) constructor panicked | (0 (size R)), R as for (12 2 ...).
+   (12 6 term wrappers probes writes): the same stacks over MatrixRefTensor::from(t), t the
+   2-dimensional tensor view `term` of the C02 language (every single adaptor over four base shapes,
+   random terms to depth 4, with Tensor and TensorRefMatrix leaves, stacks and chains of several leaves).
    Exhaustive: every size <= 4x4; every range request over {0..5, usize::MAX}^2 per axis (full
    row x column product in the thorough tier); the four reversal settings over every size and over
    empty ranges; every sublist of 0..=rows x every sublist of 0..=cols as a partition, plus
@@ -17,6 +22,8 @@
    are cross-checked inside the harness (unchecked only on present cells)."""
 import itertools
 from tools.vlib import sx, MAXU
+from tools.props import c11 as _c11
+from tools.props import c02 as _c02
 
 THEOREMS_FILE = "C12"
 TRUSTED = ["harness/src/c12.rs `Erased<'a, E>`: an unsafe impl of MatrixRef / MatrixMut / NoInteriorMutability by pure "
@@ -192,6 +199,70 @@ def gen(tier, rng):
                     for c in alpha:
                         yield view(rows, cols, [0], [a, b, c])
 
+    # ---- partitions of matrices that have been resized by a C11 history first
+    for _ in range(1500 if quick else 15000):
+        start, ops, r, c = _c11.random_history_parts(rng, 12)
+        rp = sorted(rng.sample(range(r + 1), rng.randrange(0, min(3, r + 1) + 1)))
+        cp = sorted(rng.sample(range(c + 1), rng.randrange(0, min(3, c + 1) + 1)))
+        t = rng.random()
+        if t < 0.08:
+            rp = rng.choice(bad_lists(r))
+        elif t < 0.16:
+            cp = rng.choice(bad_lists(c))
+        yield sx([12, 5, start, ops, rp, cp])
+    for (r, c) in ((1, 1), (2, 3), (3, 3)):
+        for op in _c11.alphabet(True):
+            for rp in ([], [1], [0, r]):
+                yield sx([12, 5, _c11.start_case(r, c, 1), [op], rp, [1]])
+
+    # ---- stacks over MatrixRefTensor::from(a 2-dimensional tensor view), terms of tools/props/c02.py
+    tprobes = [[r, c] for r in range(5) for c in range(5)] + [[MAXU, 0], [0, MAXU]]
+
+    def supported(t):
+        """only the term constructors of harness/src/c12/tbuild.rs (tags 0..12 of the C02 language)"""
+        if not isinstance(t, list) or not t or not isinstance(t[0], int) or not 0 <= t[0] <= 12:
+            return False
+        if t[0] in (0, 12):
+            return True
+        if t[0] in (9, 10):
+            return len(t[1]) > 0 and all(supported(x) for x in t[1])
+        if t[0] == 11 and t[2] not in (0, 1, 2):
+            return False
+        return supported(t[1])
+
+    def tensor_case(term, ws, writes=()):
+        return sx([12, 6, term, list(ws), tprobes, list(writes)])
+
+    mat_ws = [[], [[0, 0, 5, 0, 5]], [[0, 1, 1, 0, 2]], [[0, 0, 0, 1, 3]], [[1, 1, 3, 0, 2]], [[2, 1, 0]], [[2, 1, 1]],
+              [[4]], [[3, 7, 8]], [[0, 1, 5, 1, 5], [2, 0, 1]]]
+    for (lens, names) in (([2, 3], [0, 1]), ([3, 2], [4, 2]), ([1, 1], [0, 1]), ([3, 3], [1, 0])):
+        base = _c02.leaf(0, lens, names)
+        shape = [[n, l] for n, l in zip(names, lens)]
+        singles = [t for t in _c02.single_adaptors(base, shape, rng, [0, 1, 2, 3, MAXU], True)]
+        singles = [t for t in singles if supported(t)]
+        two_d = [t for t in singles if _c02.pshape(t) is not None and len(_c02.pshape(t)) == 2]
+        failing = [t for t in singles if _c02.pshape(t) is None]
+        if quick:
+            two_d = two_d[::4]
+            failing = failing[::40]
+        for k, t in enumerate(two_d):
+            ws = mat_ws[k % len(mat_ws)]
+            yield tensor_case(t, ws, writes_for(rng, 2) if k % 3 == 0 else ())
+        for t in failing:
+            yield tensor_case(t, [])
+        for ws in mat_ws:
+            yield tensor_case(base, ws, writes_for(rng, 3))
+            yield tensor_case([12, 0, lens[0], lens[1], names[0], names[1]], ws, writes_for(rng, 3))
+    made = 0
+    while made < (2500 if quick else 30000):
+        t = _c02.random_term(rng, rng.choice([1, 2, 2, 3, 3, 4]), [0])
+        sh = _c02.pshape(t)
+        if sh is None or len(sh) != 2 or not supported(t):
+            continue
+        made += 1
+        ws = [rand_wrapper(rng) for _ in range(rng.choice([0, 1, 1, 2, 3]))]
+        yield tensor_case(t, ws, writes_for(rng, 3) if rng.random() < 0.4 else ())
+
     # ---- random stacks to depth 5
     for _ in range(4000 if quick else 60000):
         rows, cols = rng.randrange(1, 6), rng.randrange(1, 6)
@@ -203,6 +274,8 @@ def gen(tier, rng):
 def nontrivial(case, model_out):
     """a view case whose stack was built and exposes at least one present cell, a refused tensor
     wrapper, an accepted partition with at least two parts, or a rejected partition"""
+    if case.startswith("(12 6"):
+        return model_out.startswith("(1 ") or (model_out.startswith("(0 ((") and not model_out.startswith("(0 ((0 "))
     if case.startswith("(12 1"):
         return model_out.startswith("(1 ") or (model_out.startswith("(0 ((") and not model_out.startswith("(0 ((0 0)")
                                                and not model_out.startswith("(0 ((0 "))
@@ -210,7 +283,7 @@ def nontrivial(case, model_out):
 
 
 def distribution(lines):
-    kinds = {"view": 0, "partition": 0, "quadrants": 0}
+    kinds = {"view": 0, "partition": 0, "quadrants": 0, "partition_after_history": 0}
     depth = {}
     leaf = {"matrix": 0, "part": 0, "quadrant": 0}
     from tools.vlib import parse_sx
@@ -219,6 +292,10 @@ def distribution(lines):
             kinds["partition"] += 1
         elif ln.startswith("(12 3"):
             kinds["quadrants"] += 1
+        elif ln.startswith("(12 5"):
+            kinds["partition_after_history"] += 1
+        elif ln.startswith("(12 6"):
+            kinds["over_tensor_view"] = kinds.get("over_tensor_view", 0) + 1
         else:
             kinds["view"] += 1
     for ln in [x for x in lines if x.startswith("(12 1")][::25]:
